@@ -282,7 +282,10 @@ class Server(base_server.BaseServer):
                         self._log_error_once(f'{e} {sid}', 'bad-sid')
                         r = self._bad_request(f'{e} {sid}')
                     else:
-                        if self.transport(sid) != transport and (
+                        # (asked of the socket in hand: the session can
+                        # leave the table at any moment in another thread)
+                        if ('websocket' if socket.upgraded else 'polling') \
+                                != transport and (
                                 transport != upgrade_header or
                                 'upgrade' not in [
                                     c.strip() for c in environ.get(
